@@ -19,7 +19,7 @@ CHECK = "check"
 MODEL_VIEW = "model_view"
 SHARD = 48
 THEOREMS = ["C13_roundtrip", "C13_roundtrip_trailing", "C13_reject_header", "C13_reject_truncated", "C13_fuel",
-            "C13_writer_reader"]
+            "C13_writer_reader", "C13_transparent", "C13_reemitted", "C13_codegen"]
 RULE = ("IncludeIpsNode(path, Resolver(), delta) on patch files written to a scratch directory: files encoded by the "
         "harness from record lists (plain incl. 65535-byte, run-length incl. run 65535, adjacent/overlapping, offsets at "
         "0, 0xFFFFFF and around 0x454F46, data containing 'EOF'), files produced by the real IPSWriter, files whose EOF "
